@@ -3,6 +3,7 @@ CONSTANTS
   Val = {1, 2}
   Proc = {1, 2}
   MaxGen = 3
+  LegKeys = {}
   MaxCrash = 1
 SPECIFICATION MCSpec
 INVARIANT PointerValid
